@@ -66,7 +66,7 @@ func KAC(c *choose.Ctx, name string, role Role, seed uint64) (refmodel.KeysAndCe
 	}
 	sig := sigMenu[c.Pick(name+".sigtype", len(sigMenu))]
 	cr := []int{4, 0}[c.Pick(name+".cryptotype", 2)]
-	form := c.Pick(name+".certform", 4) // 0 KEY, 1 KEY+1 extra, 2 KEY+5 extra, 3 NULL (forces DSA/ElGamal)
+	form := c.Pick(name+".certform", 5) // 0 KEY, 1 KEY+1 extra, 2 KEY+5 extra, 3 NULL (forces DSA/ElGamal), 4 NULL declaring 2 payload bytes
 	padFill := c.Pick(name+".padfill", 3)
 	keyFill := c.Pick(name+".cryptofill", 2)
 	var extra []byte
@@ -78,6 +78,9 @@ func KAC(c *choose.Ctx, name string, role Role, seed uint64) (refmodel.KeysAndCe
 		extra = []byte{0xE1, 0xE2, 0xE3, 0xE4, 0xE5}
 	case 3:
 		null, sig, cr = true, 0, 0
+	case 4:
+		null, sig, cr = true, 0, 0
+		extra = []byte{0xA1, 0xA2}
 	}
 	kp := Key(sig, seed)
 	cl := refmodel.CryptoTable[cr]
